@@ -33,10 +33,16 @@ def main():
     if os.path.exists(os.path.join(outdir, "meta.json")):
         meta = json.load(open(os.path.join(outdir, "meta.json")))
         skip_validate = skip_validate or meta.get("validated", False)
-        diff = os.path.join(outdir, "patch.diff") if not os.path.exists(diff) else diff
+        if os.path.exists(os.path.join(outdir, "patch.diff")):
+            diff = os.path.join(outdir, "patch.diff")   # the stored (possibly rebased) patch wins
+    apply_cmd = "git -C /repo apply %s"
     rc, o = sh("git -C /repo apply --check %s" % diff)
     if rc != 0:
-        print("patch does not apply to /repo HEAD:", o[:500]); return 2
+        rc, o = sh("git -C /repo apply --3way --check %s" % diff)   # /repo moved on (later fix: commits): merge the change
+        if rc != 0:
+            print("patch does not apply to /repo HEAD:", o[:500]); return 2
+        apply_cmd = "git -C /repo apply --3way %s && git -C /repo reset -q || (git -C /repo reset -q --hard HEAD; false)"
+        meta["applied_with_3way_merge"] = True
     if not skip_validate:
         sh("git checkout -- include lib", cwd=wt)
         rc, o = sh("git apply %s" % diff, cwd=wt)
@@ -66,7 +72,9 @@ def main():
     env = "VERIF_EVIDENCE_DIR=%s/build/seed-evidence VERIF_REPLAY_DIR=%s/build/seed-replays " % (V, V)
     results = meta.get("results", {})
     try:
-        sh("git -C /repo apply %s" % diff)
+        rc0, o0 = sh(apply_cmd % diff)
+        if rc0 != 0:
+            print("apply failed:", o0[:300]); return 2
         for c in checks:
             t0 = time.time()
             rc, o = sh(env + "python3 tools/check.py %s --tier %s" % (c, tier), cwd=V, timeout=7200)
